@@ -420,6 +420,39 @@ fn rejection(ctx: &mut Ctx, n: usize) {
             }
         }
     }
+    // one cargo_build_many call with several definitions: one rejected definition anywhere in the list
+    // makes the call fail
+    if let Some(me) = &me {
+        for (oname, order) in [("rejected,valid", vec![false, true]), ("valid,rejected", vec![true, false]), ("valid,rejected,valid", vec![true, false, true])] {
+            let scratch = vl_model::sock::Scratch::new("c09m");
+            let out_dir = scratch.path.join("out");
+            let _ = std::fs::create_dir_all(&out_dir);
+            let mut files = vec![];
+            for (k, good) in order.iter().enumerate() {
+                let f = scratch.path.join(format!("org.example.many{}.varlink", k));
+                let text = if *good { format!("interface org.example.many{}\nmethod Ping(ping: string) -> (pong: string)\n", k) } else { format!("interface org.example.many{}\nmethod broken( -> ()\n", k) };
+                let _ = std::fs::write(&f, text);
+                files.push(f);
+            }
+            count += 1;
+            ctx.case(Some(hash64(&("many", oname))));
+            ctx.class("reject-via:cargo_build_many(several files)");
+            let out = Command::new(me).args(["buildscript-child", "cargo_build_many"]).arg(&out_dir).args(&files).stdin(Stdio::null()).stdout(Stdio::piped()).stderr(Stdio::piped()).output();
+            match out {
+                Ok(o) => {
+                    if o.status.success() {
+                        ctx.violation(
+                            "gen/helper-accepts-invalid",
+                            &format!("cargo_build_many([{}]) exited successfully although one definition is rejected", oname),
+                            "c09-idl",
+                            json!({"idl": bad_text, "front_end": "cargo_build_many", "files": oname}),
+                        );
+                    }
+                }
+                Err(_) => ctx.inconclusive("cannot run the build-script child"),
+            }
+        }
+    }
     ctx.section("rejection_half", json!({"invalid_inputs": count}));
 }
 
